@@ -209,6 +209,15 @@ def structured():
         for about in ("other", "signer_wrong_issuer", "signer_wrong_key", "signer_sha256"):
             out.append(mk_case(f"craft-{st}-about-{about}", ocsp=resp([S(about=about, status=st)])))
     # several single responses
+    # the signer's entry first, another certificate's afterwards (a responder answering a multi-certificate request)
+    out.append(mk_case("signer-revoked+other-good", ocsp=resp([REV(), S(about="other")])))
+    out.append(mk_case("signer-revoked-keyCompromise+other-good", ocsp=resp([REV(reason="keyCompromise"), S(about="other")])))
+    out.append(mk_case("signer-revoked+other-good+other-good", ocsp=resp([REV(), S(about="other"), S(about="signer_wrong_issuer")])))
+    out.append(mk_case("signer-unknown+other-good", ocsp=resp([S(status="unknown"), S(about="other")])))
+    out.append(mk_case("signer-good-not-yet+other-good", ocsp=resp([S(this=5000), S(about="other")])))
+    out.append(mk_case("signer-good+other-revoked", ocsp=resp([S(), REV(about="other")])))
+    out.append(mk_case("signer-unknown+other-revoked", ocsp=resp([S(status="unknown"), REV(about="other")])))
+    out.append(mk_case("openssl-style other-good+signer-revoked+other-good", ocsp=resp([S(about="other"), REV(), S(about="other")])))
     out.append(mk_case("other-good+signer-revoked", ocsp=resp([S(about="other"), REV()])))
     out.append(mk_case("other-revoked+signer-good", ocsp=resp([REV(about="other"), S()])))
     out.append(mk_case("signer-good+signer-revoked", ocsp=resp([S(), REV()])))
